@@ -7,6 +7,7 @@ import (
 	"os"
 	"reflect"
 	"runtime"
+	"runtime/debug"
 	"strings"
 	"sync"
 	"testing"
@@ -372,7 +373,7 @@ func TestHistory(t *testing.T) {
 				func() {
 					defer func() {
 						if r := recover(); r != nil {
-							t.Errorf("harness panic in history %d (%s): %v", i, hs[i].key(), r)
+							t.Errorf("harness panic in history %d (%s): %v\n%s", i, hs[i].key(), r, debug.Stack())
 						}
 					}()
 					runHist(&hs[i], rep, t.Errorf)
